@@ -128,11 +128,22 @@ type c16Case struct {
 }
 
 var c16Cur atomic.Value // *c16Case
+var c16Cases sync.Map    // global scope -> *c16Case, while the case is running
 
 type c16Gate struct{}
 
 func (g *c16Gate) Run(instanceID string, vs parser.Scope, is map[string]interface{}, tid uint64, args []interface{}) (interface{}, error) {
-	c := c16Cur.Load().(*c16Case)
+	// the case this thread belongs to: found through the global scope it runs in (a thread left
+	// behind by an earlier case must not touch the current one)
+	root := vs
+	for root.Parent() != nil {
+		root = root.Parent()
+	}
+	cv, ok := c16Cases.Load(root)
+	if !ok {
+		return nil, nil // the case is over: run to the end
+	}
+	c := cv.(*c16Case)
 	c.mu.Lock()
 	ch := c.gate
 	c.mu.Unlock()
@@ -214,7 +225,7 @@ func (c *c16Case) threadTable() map[string]map[string]interface{} {
 
 // quiesce waits until every started thread is suspended, in the gate or finished.
 func (c *c16Case) quiesce() bool {
-	deadline := time.Now().Add(90 * time.Second)
+	deadline := time.Now().Add(30 * time.Second)
 	stable := 0
 	for {
 		tt := c.threadTable()
@@ -261,6 +272,8 @@ func (c *c16Case) quiesce() bool {
 		}
 		stable = 0
 		if time.Now().After(deadline) {
+			CountRun("quiesce-timeout")
+			fmt.Fprintf(os.Stderr, "c16: no quiescence: threads %v\n", tt)
 			return false
 		}
 		time.Sleep(30 * time.Microsecond)
@@ -338,6 +351,7 @@ func c16NewCase(scn string, gsGiven bool) *c16Case {
 		c.dbg = interpreter.NewECALDebugger(nil)
 	}
 	c16Cur.Store(c)
+	c16Cases.Store(c.gs, c)
 	switch scn {
 	case "none":
 	case "bos": // suspended by break-on-start at the very first node: references still unset
@@ -387,6 +401,7 @@ var c16Scenarios = []string{"none", "bos", "top", "running", "nest1", "nest2", "
 	"errmap", "errnest", "errinf"}
 
 func (c *c16Case) end() {
+	c16Cases.Delete(c.gs)
 	c.mu.Lock()
 	close(c.gate)
 	c.mu.Unlock()
@@ -405,7 +420,9 @@ func (c *c16Case) end() {
 		}
 	}
 	for _, e := range c.erps {
-		e.Cron.Stop()
+		// not synchronously: timeutil.Cron.Stop holds the cron's lock while it waits for the cron
+		// goroutine, which takes the same lock after every tick (a rare deadlock in krotik/common)
+		go e.Cron.Stop()
 	}
 }
 
@@ -424,7 +441,7 @@ func (c *c16Case) evalBit(line string) string {
 			}
 		}()
 		erp := interpreter.NewECALRuntimeProvider("InjectValueExpression2", nil, nil)
-		defer erp.Cron.Stop()
+		defer func() { go erp.Cron.Stop() }()
 		tree, err := parser.ParseWithRuntime("InjectValueExpression", expr, erp)
 		if err == nil {
 			if err = tree.Runtime.Validate(); err == nil {
@@ -586,6 +603,7 @@ func c16Conc() string {
 	c.gs = scope.NewScope(scope.GlobalScope)
 	c.dbg = interpreter.NewECALDebugger(c.gs)
 	c16Cur.Store(c)
+	c16Cases.Store(c.gs, c)
 	c.dbg.BreakOnStart(true)
 	c.start(1, "prog", sb.String())
 	defer c.end()
@@ -692,6 +710,9 @@ func c16Run(payload string) string {
 	if f[0] == "conc" {
 		return c16Conc()
 	}
+	if f[2] == "?" {
+		return "RECORD-TIMEOUT" // the harness could not record this case (counted; not a statement about the code)
+	}
 	var lines []string
 	var rec []c16Step
 	for _, s := range f[3:] {
@@ -751,7 +772,25 @@ func c16Gen(g *Gen) {
 			g.Emit("not-in-this-shard") // never written nor executed: only counts the index
 			return
 		}
-		o0, steps, _ := c16Exec(scn, gsGiven, lines, nil, "")
+		// the recording run is bounded as a whole (it runs outside the per-case time limit)
+		type recorded struct {
+			o0    string
+			steps []c16Step
+		}
+		ch := make(chan recorded, 1)
+		go func() {
+			o0, steps, _ := c16Exec(scn, gsGiven, lines, nil, "")
+			ch <- recorded{o0, steps}
+		}()
+		var o0 string
+		var steps []c16Step
+		select {
+		case r := <-ch:
+			o0, steps = r.o0, r.steps
+		case <-time.After(150 * time.Second):
+			g.Count("record-timeout")
+			o0 = "?"
+		}
 		if len(steps) != len(lines) {
 			// the recording run stopped early (hang): keep the steps it could not observe
 			for i := len(steps); i < len(lines); i++ {
@@ -997,7 +1036,7 @@ func c16Tool(args []string) int {
 
 func init() {
 	register("C16", &Prop{
-		Timeout:          240 * time.Second,
+		Timeout:          150 * time.Second,
 		NoRestartOnPanic: true,
 		Setup: func() {
 			xPkgOnce.Do(func() { stdlib.AddStdlibPkg("x", "verification harness functions") })
